@@ -183,10 +183,11 @@ Lemma check_with_accept m D :
              /\ locally_ok m D = true.
 Proof.
   unfold check_with, locally_ok.
-  destruct (first_reason front_ctx (all_contexts D)); [discriminate|].
   destruct (first_reason (ci_ctx m) (all_contexts D)); [discriminate|].
   destruct (run ustate0 (visits m 0 (all_contexts D))) as [st|]; [|discriminate].
-  intros H. exists st. auto.
+  destruct (inst_loop m 0 (all_insts D) (written_in st)) eqn:Hi; [|discriminate].
+  destruct (first_reason front_ctx (all_contexts D)); [discriminate|].
+  intros _. exists st. auto.
 Qed.
 
 Theorem check_fixed_sound D :
@@ -431,8 +432,8 @@ Theorem check_fixed_exact D :
   locally_ok Fixed D = true -> check_fixed D = Accept.
 Proof.
   intros Hdu [I1 I2] Hl. unfold check_fixed, check_with. unfold locally_ok in Hl.
-  destruct (first_reason front_ctx (all_contexts D)); [discriminate|].
   destruct (first_reason (ci_ctx Fixed) (all_contexts D)); [discriminate|].
+  destruct (first_reason front_ctx (all_contexts D)) eqn:Hfront; [discriminate|].
   fold (units D).
   assert (Hown : forall r o o' e e', In (o, e) (units D) -> In (o', e') (units D) ->
             writes_root r (o, e) = true -> writes_root r (o', e') = true -> o = o').
@@ -448,7 +449,9 @@ Proof.
     - apply in_map_iff. exists (o', e'). split; [reflexivity | apply filter_In; auto]. }
   destruct (run_complete (units D) I1 Hown Huse (units D) [] ustate0 eq_refl) as (st & Hr & [Iw _]).
   { split; intros r o H; discriminate H. }
-  rewrite Hr. apply inst_loop_complete.
+  rewrite Hr.
+  assert (Hacc : inst_loop Fixed 0 (all_insts D) (written_in st) = Accept); [|rewrite Hacc; reflexivity].
+  apply inst_loop_complete.
   - exact I2.
   - intros r Hh. unfold has in Hh. destruct (find r (written_in st)) as [o|] eqn:F; [|discriminate].
     destruct (Iw _ _ F) as (e & Hin & Hw). destruct (Hdu r) as [Hd _]. unfold drivers in Hd.
